@@ -113,16 +113,48 @@ def section10():
     return "\n".join(out)
 
 
+OBSERVATIONS = ("Observations judged outside the properties' domains (not findings): `spokes_grad` corrupts its waveforms when a blip is "
+                "longer than one slice-select lobe; the `LinearLeastSquares` docstring swaps the default solvers for `G` given / not given "
+                "(the code is the consistent one); `hard_thresh` at |y| = λ may return either minimiser; `sigpy.fft` converts every "
+                "non-complex input, float64 included, to complex64, so real-dtype data are transformed in single precision (the C04/C06 "
+                "oracles compare such inputs at single-precision tolerances); integer-dtype DATA arrays (as opposed to integer-typed "
+                "coordinates / parameters, which were repaired) are truncated or rejected by interpolate, nufft and the wavelet transform — "
+                "the properties quantify over real and complex data; `Linop._check_ishape` zips the shapes, so an input with extra trailing "
+                "axes passes the guard (stated exactly by `C03.gen_call_accepts_iff`).")
+
+
+def section11():
+    k = json.load(open(os.path.join(HERE, "known_findings.json")))
+    out = ["## 11. Genuine defects found in sigpy and their disposition\n"]
+    out.append("Every entry was reproduced against the real code by a check's search oracle (failing input in the replay) before it was "
+               "repaired; each repair is one minimal unguarded `fix:` commit in /repo (the unedited test-suite passes: 125 tests), recorded in "
+               "`known_findings.json` under `fixed` — a fixed entry suppresses nothing, the inputs stay in the oracles as regression cases. "
+               "Defects 1–13 of §5 were seen while reading in round 0; the others were found by the checks while they were being built, "
+               "deepened or hardened (round 3: the widened input classes — dtypes, layouts, magnitudes, histories — found the last eleven).\n")
+    out.append("| property | commit | what failed |")
+    out.append("|---|---|---|")
+    for f in k["fixed"]:
+        m = re.match(r"fixed: property=(\S+) (\S+) (.*)", f, re.S)
+        out.append("| %s | `%s` | %s |" % (m.group(1), m.group(2), m.group(3).replace("|", "/").replace("\n", " ")))
+    out.append("")
+    out.append("**Known findings (recorded, not repaired).** Each is matched by its exact key, classified on the real code, so that a different "
+               "violation of the same property is still reported; each check prints one `KNOWN-FINDING:` line per listed finding it meets and exits 0.\n")
+    for f in k["findings"]:
+        out.append("* **%s** `%s` — %s" % (f["property"], f["key"], f["what"].replace("\n", " ")))
+    out.append("")
+    out.append(OBSERVATIONS)
+    out.append("")
+    return "\n".join(out)
+
+
 def main():
     p = os.path.join(HERE, "DESIGN.md")
     s = open(p).read()
     i9 = s.index("## 9. As built, per property")
     m11 = s.index("## 11. Genuine defects found in sigpy")
-    tail = s[m11:]
-    tail = re.sub(r"\n## 10\. Seeded changes.*", "", tail, flags=re.S)
-    s = s[:i9] + section9() + "\n" + section10() + "\n" + tail
+    s = s[:i9] + section9() + "\n" + section10() + "\n" + section11()
     open(p, "w").write(s)
-    print("DESIGN.md §9/§10 regenerated")
+    print("DESIGN.md §9/§10/§11 regenerated")
 
 
 if __name__ == "__main__":
